@@ -157,6 +157,13 @@ pub struct Wrap<A> {
     pub tail: u16,
 }
 
+/// A generic enum holding a slice / iterator / vector in a type-parameter field of a variant.
+#[derive(Epserde, Debug, Clone)]
+pub enum WrapE<A> {
+    Held(u8, A),
+    Empty,
+}
+
 /// An iterator that announces a length of its own choosing.
 pub struct Lying<'a, T> {
     it: core::slice::Iter<'a, T>,
@@ -181,6 +188,7 @@ pub struct SliceEntry {
     pub rust_name: &'static str,
     pub vec_name: fn() -> String,
     pub wrap_name: fn() -> String,
+    pub wrape_name: fn() -> String,
     pub ser3: fn(&Term) -> String,
     pub iter: fn(&Term, usize) -> String,
     /// serialize the slice reference (and a structure holding it) through a faulty writer while the
@@ -233,11 +241,14 @@ where
     for<'a> &'a [T]: Serialize,
     Wrap<Vec<T>>: Serialize,
     for<'a> Wrap<&'a [T]>: Serialize,
+    WrapE<Vec<T>>: Serialize,
+    for<'a> WrapE<&'a [T]>: Serialize,
 {
     SliceEntry {
         rust_name,
         vec_name: || core::any::type_name::<Vec<T>>().to_string(),
         wrap_name: || core::any::type_name::<Wrap<Vec<T>>>().to_string(),
+        wrape_name: || core::any::type_name::<WrapE<Vec<T>>>().to_string(),
         ser3: |t| {
             let Some(v) = crate::catch(|| Vec::<T>::from_term(t)) else { return "badterm".into() };
             let s: &[T] = &v;
@@ -247,9 +258,14 @@ where
             let wv = ser_hex(&Wrap { a: Vec::<T>::from_term(t), tail: 0xBEEF });
             let ws = ser_hex(&Wrap { a: s, tail: 0xBEEF });
             let wi = ser_hex(&Wrap { a: SerIter::new(v.iter()), tail: 0xBEEF });
+            let ev = ser_hex(&WrapE::Held(7, Vec::<T>::from_term(t)));
+            let es = ser_hex(&WrapE::Held(7, s));
+            let ei = ser_hex(&WrapE::Held(7, SerIter::new(v.iter())));
+            let eu = ser_hex(&WrapE::<&[T]>::Empty);
+            let euv = ser_hex(&WrapE::<Vec<T>>::Empty);
             // the source must be intact afterwards
             let again = ser_hex(&v);
-            format!("ser3 V:{} S:{} I:{} WV:{} WS:{} WI:{} intact={}", vv, ss, ii, wv, ws, wi, again == vv)
+            format!("ser3 V:{} S:{} I:{} WV:{} WS:{} WI:{} EV:{} ES:{} EI:{} EU:{} EUV:{} intact={}", vv, ss, ii, wv, ws, wi, ev, es, ei, eu, euv, again == vv)
         },
         wfails: wfails_generic::<T>,
         iter: |t, announced| {
@@ -275,11 +291,14 @@ where
     for<'a> &'a [T]: Serialize,
     Wrap<Vec<T>>: Serialize,
     for<'a> Wrap<&'a [T]>: Serialize,
+    WrapE<Vec<T>>: Serialize,
+    for<'a> WrapE<&'a [T]>: Serialize,
 {
     SliceEntry {
         rust_name,
         vec_name: || core::any::type_name::<Vec<T>>().to_string(),
         wrap_name: || core::any::type_name::<Wrap<Vec<T>>>().to_string(),
+        wrape_name: || core::any::type_name::<WrapE<Vec<T>>>().to_string(),
         ser3: |t| {
             let Some(v) = crate::catch(|| Vec::<T>::from_term(t)) else { return "badterm".into() };
             let s: &[T] = &v;
@@ -287,8 +306,12 @@ where
             let ss = ser_hex(&s);
             let wv = ser_hex(&Wrap { a: Vec::<T>::from_term(t), tail: 0xBEEF });
             let ws = ser_hex(&Wrap { a: s, tail: 0xBEEF });
+            let ev = ser_hex(&WrapE::Held(7, Vec::<T>::from_term(t)));
+            let es = ser_hex(&WrapE::Held(7, s));
+            let eu = ser_hex(&WrapE::<&[T]>::Empty);
+            let euv = ser_hex(&WrapE::<Vec<T>>::Empty);
             let again = ser_hex(&v);
-            format!("ser3 V:{} S:{} I:- WV:{} WS:{} WI:- intact={}", vv, ss, wv, ws, again == vv)
+            format!("ser3 V:{} S:{} I:- WV:{} WS:{} WI:- EV:{} ES:{} EI:- EU:{} EUV:{} intact={}", vv, ss, wv, ws, ev, es, eu, euv, again == vv)
         },
         wfails: wfails_generic::<T>,
         iter: |_, _| "iter -".into(),
@@ -306,6 +329,8 @@ pub struct FaultyWriter {
     pub cap: Option<usize>,
     pub int_every: Option<usize>,
     pub flush_fail: bool,
+    /// the kind of error a failing flush reports
+    pub flush_kind: std::io::ErrorKind,
     /// transient failure: the call that finds the budget exhausted fails once, later calls are accepted again
     pub once: bool,
     pub calls: usize,
@@ -337,7 +362,7 @@ impl std::io::Write for FaultyWriter {
     }
     fn flush(&mut self) -> std::io::Result<()> {
         if self.flush_fail {
-            Err(std::io::Error::new(std::io::ErrorKind::Other, "flush failed"))
+            Err(std::io::Error::new(self.flush_kind, "flush failed"))
         } else {
             Ok(())
         }
@@ -345,14 +370,22 @@ impl std::io::Write for FaultyWriter {
 }
 
 pub fn parse_wspec(spec: &str) -> FaultyWriter {
-    let mut w = FaultyWriter { acc: vec![], budget: None, cap: None, int_every: None, flush_fail: false, once: false, calls: 0 };
+    let mut w = FaultyWriter { acc: vec![], budget: None, cap: None, int_every: None, flush_fail: false, flush_kind: std::io::ErrorKind::Other, once: false, calls: 0 };
     for kv in spec.split(',') {
         if let Some((k, v)) = kv.split_once('=') {
             match k {
                 "k" => w.budget = v.parse().ok(),
                 "m" => w.cap = v.parse().ok(),
                 "int" => w.int_every = v.parse().ok(),
-                "ff" => w.flush_fail = v == "1",
+                "ff" => {
+                    w.flush_fail = v != "0";
+                    w.flush_kind = match v {
+                        "2" => std::io::ErrorKind::Interrupted,
+                        "3" => std::io::ErrorKind::WouldBlock,
+                        "4" => std::io::ErrorKind::TimedOut,
+                        _ => std::io::ErrorKind::Other,
+                    };
+                }
                 "once" => w.once = v == "1",
                 _ => {}
             }
@@ -569,6 +602,15 @@ where
     }
     let on_disk = std::fs::read(&path).unwrap_or_default();
     let store_ok = on_disk.len() == expected.len();   // contents compared by the caller through the mask
+    // every fourth load goes through a symbolic link to the stored file (what matters is the file, not the link)
+    let real_path = path.clone();
+    let link = tmp_path("link");
+    let via_link = {
+        use std::sync::atomic::{AtomicUsize, Ordering};
+        static L: AtomicUsize = AtomicUsize::new(0);
+        L.fetch_add(1, Ordering::Relaxed) % 4 == 3 && std::os::unix::fs::symlink(&real_path, &link).is_ok()
+    };
+    let path = if via_link { link.clone() } else { path };
     let file_len = on_disk.len();
     let r = match loader {
         "full" => match crate::catch(|| T::load_full(&path)) {
@@ -600,7 +642,10 @@ where
         },
         _ => "badloader".to_string(),
     };
-    let _ = std::fs::remove_file(&path);
+    let _ = std::fs::remove_file(&real_path);
+    if via_link {
+        let _ = std::fs::remove_file(&link);
+    }
     #[cfg(feature = "mmap")]
     let mflags = flags_of(flags).verif_mmap_flags();
     // without mmap the flags are not translated at all: echo the expected translation of the empty set
